@@ -266,6 +266,9 @@ def r3(x):
 
 def gen_scene(rng, multi, allow_fail=True):
     fitfun = "ring" if rng.random() < 0.15 else "gauss"
+    # a table made of integers only (pixel positions of maxima, integer signal / size / background):
+    # single gauss features, no NaN start values
+    all_int = fitfun == "gauss" and rng.random() < 0.15
     size = SC_SIZE[fitfun]
     nfr = rng.randint(2, 4) if multi else 1
     fnos = sorted(rng.sample(range(9), nfr)) if (multi and rng.random() < 0.35) else list(range(nfr))
@@ -275,9 +278,11 @@ def gen_scene(rng, multi, allow_fail=True):
         for cell in cells:
             cy, cx = SC_CELLS[cell]
             kind = rng.choice(["near"] * 15 + (["far", "out", "out", "nan", "nan"] if allow_fail else []))
+            if all_int and kind == "nan":
+                kind = "near"
             centre = [cy + rng.uniform(-1, 1), cx + rng.uniform(-1, 1)]
             members = [centre]
-            if rng.random() < 0.4:
+            if rng.random() < 0.4 and not all_int:
                 ang = rng.uniform(0, 2 * math.pi)
                 d = size * SC_SEP[fitfun] / 2
                 members = [[centre[0] + d * math.sin(ang), centre[1] + d * math.cos(ang)],
@@ -293,17 +298,19 @@ def gen_scene(rng, multi, allow_fail=True):
                 st = [tc[0] + rad * math.sin(ang), tc[1] + rad * math.cos(ang)]
                 if kind == "out":
                     st = [tc[0] + shift[0], tc[1] + shift[1]]
+                if all_int:     # whole pixels: the pixel nearest to the true centre (<= 0.71 px off)
+                    st = [float(round(tc[0])), float(round(tc[1]))] if kind == "near" else \
+                         [float(round(st[0])), float(round(st[1]))]
                 feats.append(dict(frame=fno, cell=cell, true=[r3(tc[0]), r3(tc[1])], start=[r3(st[0]), r3(st[1])],
                                   kind=kind, nan=(kind == "nan" and m == 0)))
     return dict(fitfun=fitfun, multi=bool(multi), nframes=(max(fnos) + 1 if multi else 1), feats=feats,
                 bg=rng.choice([0, 10]), order=rng.choice(ORDERS) if multi else rng.choice(["asc", "interleaved"]),
                 index=rng.choice(INDEXES) if multi else rng.choice(["range", "shuffled", "str", "dup"]),
                 oseed=rng.randrange(10 ** 6), extra_cols=rng.random() < 0.5,
-                # presentation of the same data: column order, image dtype.  (`signal_int`, an int64 signal
-                # column, is understood by build_scene but NOT generated: on the unchanged tree the write-back
-                # of fitted values into an integer column raises TypeError with pandas >= 3 -- reported
-                # as a finding about the unchanged tree, not silenced by a tolerance)
-                colorder=rng.random() < 0.3, signal_int=False, img_f32=rng.random() < 0.3)
+                # presentation of the same data: column order, image dtype, integer-typed start columns
+                # (`signal_int`: an int64 signal column; `all_int`: every parameter column int64)
+                colorder=rng.random() < 0.3, signal_int=(all_int or rng.random() < 0.2), all_int=all_int,
+                img_f32=rng.random() < 0.3)
 
 
 PM_CHOICES = [{"size": "var"}, {"size": "cluster"}, {"signal": "cluster"}, {"background": "const"},
@@ -1136,6 +1143,12 @@ def build_scene(ls, scene):
         data["ecc"] = [0.125 * i for i in range(n)]
     if scene.get("signal_int") and not any(f["nan"] for f in feats):
         data["signal"] = np.array([180] * n, dtype=np.int64)
+    if scene.get("all_int") and not any(f["nan"] for f in feats):
+        data["y"] = np.array([int(v) for v in data["y"]], dtype=np.int64)
+        data["x"] = np.array([int(v) for v in data["x"]], dtype=np.int64)
+        data["size"] = np.array([3] * n, dtype=np.int64)
+        if "background" in data:
+            data["background"] = np.array([int(0.8 * scene["bg"])] * n, dtype=np.int64)
     t = pd.DataFrame(data)
     order = list(range(n))
     rnd = random.Random(scene["oseed"])
@@ -1393,7 +1406,7 @@ def run_frames(ctx, inp, res):
     res.stat("frames_order_" + scene["order"])
     res.stat("frames_index_" + scene["index"])
     res.stat("frames_features", len(t))
-    for opt in ("colorder", "signal_int", "img_f32"):
+    for opt in ("colorder", "signal_int", "all_int", "img_f32"):
         if scene.get(opt):
             res.stat("frames_scene_" + opt)
     res.stat("frames_nframes_%d" % len(set(fr)))
